@@ -68,6 +68,32 @@ mut("c07_query_writes", "src/storage/core.rs", """    pub async fn records_count
         self.inner.records_count().await""", """    pub async fn records_count(&self) -> usize {
         self.observer.try_dump_old_blob_indexes().await;
         self.inner.records_count().await""", ["C07"], "a counter query triggers index dumps (writes)")
+# ---- C08
+mut("c08_write_read_lock", "src/blob/core.rs", "        let blob = blob.upgradable_read().await;", "        let blob = blob.read().await;", ["C08"], "writers no longer serialised per blob (still correct? offsets are reserved atomically)")
+mut("c08_fetch_add_outside", "src/io/unix/sync.rs", """            Self::inplace_sync_call(move || {
+                let offset = file_inner.size.fetch_add(len, Ordering::SeqCst);
+                let (res, data) = c.create(offset);""", """            let offset = file_inner.size.load(Ordering::SeqCst);
+            Self::inplace_sync_call(move || {
+                file_inner.size.store(offset + len, Ordering::SeqCst);
+                let (res, data) = c.create(offset);""", ["C08", "C14"], "offset reservation is load+store instead of fetch_add (in-place path)")
+mut("c08_replace_loses_old", "src/storage/core.rs", """        if let Some(blob) = old_active {
+            self.blobs.write().await.push(blob.into_inner()).await;
+        }""", """        if let Some(blob) = old_active {
+            let blob = blob.into_inner();
+            if blob.records_count() % 7 != 3 { self.blobs.write().await.push(blob).await; }
+        }""", ["C08", "C04"], "rotation forgets the old blob when its record count is 3 mod 7")
+mut("c08_latest_wrong_under_rotation", "src/storage/core.rs", """        let blobs = safe.blobs.read().await;
+        let mut stream = blobs
+            .iter_possible_childs_rev(key)""", """        let blobs = safe.blobs.read().await;
+        if blobs.len() == 2 && latest_entry.is_found() { return Ok(latest_entry); }
+        let mut stream = blobs
+            .iter_possible_childs_rev(key)""", ["C08", "C01"], "read stops at the active blob when exactly two closed blobs exist (stale reads / wrong ranking)")
+mut("c08_f9_revert_partial", "src/storage/core.rs", """            (result, self.need_update_active_blob(blob).await?)
+        };""", """            let need = self.need_update_active_blob(blob).await?;
+            if need { self.observer.try_update_active_blob().await; }
+            if self.inner.should_try_fsync(result.dirty_bytes) { self.observer.try_fsync_data().await; }
+            (result, false)
+        };""", ["C08"], "reverts the deadlock fix: hints sent under the storage lock")
 # ---- C09
 mut("c09_leaf_pack_eq", "src/blob/index/bptree/serializer.rs", "            if remainder < record_header_size {", "            if remainder <= record_header_size {", ["C09"], "EQUIVALENT: starts a new leaf one header early, still a valid tree")
 mut("c09_leaf_pack", "src/blob/index/bptree/serializer.rs", "            if remainder < record_header_size {", "            if remainder + 1 < record_header_size {", ["C09"], "leaf packing off-by-one: a header may cross the 4 KiB block end")
